@@ -38,6 +38,15 @@ def r1(ctx: Ctx) -> None:
             ok = len(nm) == 1 and key(strip_ver(nm[0].value)) == "settings['target']"
         ctx.check(ok, f, f.node, f"{FPS}: target market is the configured one", "simulator.name2market[settings['target']]", "; ".join(short(e.value) for e in tm))
         break
+    nlen = 0
+    for p in normal_paths(ctx.paths(f.qualname)):
+        for e in stores(p, "shock_time_length"):
+            nlen += 1
+            ok = key(strip_ver(e.base)) == "self" and key(strip_ver(e.value)) == "settings['shockTimeLength']"
+            ctx.check(ok, f, e.node, f"{FPS}: the window length is the configured one, whatever the session", "self.shock_time_length = settings['shockTimeLength']", short(e.value))
+    ctx.require(nlen >= 1, f"{FPS}.setup: shock_time_length is never configured")
+    ws = {w.func.qualname for w in ctx.cg.writers_of(FPS, "shock_time_length")}
+    ctx.check(ws <= {f"{FPS}.__init__", f"{FPS}.setup"}, f, f.node, f"{FPS}: nobody else adjusts the window length", "__init__, setup", str(sorted(ws)))
     hooks, disabled = declared_hooks(ctx, FPS)
     g = ctx.func(f"{FPS}.hook_registration")
     ctx.check(len(hooks) == 1 and hooks[0].returned, g, g.node, f"{FPS}: exactly one hook when enabled", "1 returned hook", f"{len(hooks)} constructed, returned={[h.returned for h in hooks]}")
@@ -203,3 +212,17 @@ def h1(ctx: Ctx) -> None:
     from .c12 import r3 as shock_rule
 
     shock_rule(ctx)
+
+
+@rule("C14.H2", "mechanism shared with C13: market-step-begin and order-before hooks reach every hook registered for the step, each filtered on its own (one shock never hides another)", "T6 + T7 (same rule as C13.R2, rows market/before and order/before)", floor=8)
+def h2(ctx: Ctx) -> None:
+    from .c13 import check_triggers
+
+    check_triggers(ctx, {("market", "before"), ("order", "before")})
+
+
+@rule("C14.H3", "mechanism shared with C12: after a shock the future is regenerated from the level recorded at the regeneration point", "T7 (same rule as C12.R1)", floor=4)
+def h3(ctx: Ctx) -> None:
+    from .c12 import r1 as regeneration_rule
+
+    regeneration_rule(ctx)
